@@ -219,12 +219,14 @@ PolyStep == \E s \in PolySteps \cup PolySteps3 :
     /\ stage' = IF DepthOf = 0 THEN "p1" ELSE IF DepthOf = 1 THEN "p2" ELSE "p3"
 \* tiny: the whole system (coefficients and bias) is multiplied by 1e-17 before the call - the same half-spaces with
 \* coefficients below the machine epsilon; the harness logs the rows scaled back
-CleanStart == \E p \in CPolys \cup CExtra, o \in CleanOps, rs \in {<<0>>, <<1>>, <<0, 2>>, <<>>}, tiny \in BOOLEAN :
+\* negzero: every zero bias is passed as -0.0 (same constraint; the sign bit must not matter)
+CleanStart == \E p \in CPolys \cup CExtra, o \in CleanOps, rs \in {<<0>>, <<1>>, <<0, 2>>, <<>>}, tiny \in BOOLEAN, nz \in BOOLEAN :
     /\ stage = "init" /\ MODE = "clean"
     \* only the operations that test for exact zeros; remove_duplicate_rows compares with an absolute tolerance by design
     /\ (tiny => o \in {"remove_tautologies", "remove_zero_rows"} /\ Len(p.m) <= 2)
+    /\ (nz => ~tiny /\ o # "remove_rows" /\ \E i \in 1..Len(p.b) : p.b[i] = 0)
     /\ (o = "remove_rows" => \A i \in 1..Len(rs) : rs[i] < Len(p.m)) /\ (o # "remove_rows" => rs = <<>>)
-    /\ reg' = p /\ prev' = None /\ last' = [op |-> o, rows |-> rs, tiny |-> tiny] /\ hist' = [ctor |-> Ctor("rows", [p |-> p, tiny |-> tiny]), pipe |-> <<[op |-> o, rows |-> rs, qout |-> IF o = "normalize" THEN 30 ELSE 1]>>]
+    /\ reg' = p /\ prev' = None /\ last' = [op |-> o, rows |-> rs, tiny |-> tiny, negzero |-> nz] /\ hist' = [ctor |-> Ctor("rows", [p |-> p, tiny |-> tiny, negzero |-> nz]), pipe |-> <<[op |-> o, rows |-> rs, qout |-> IF o = "normalize" THEN 30 ELSE 1]>>]
     /\ stage' = "c1"
 AffStart == \E o \in AffOps :
     /\ stage = "init" /\ MODE = "aff" /\ ValidAffOp(o)
